@@ -12,6 +12,7 @@ from __future__ import annotations
 
 import itertools
 import json
+import os
 
 from harness import common as C
 from harness import sched
@@ -209,6 +210,120 @@ class L(JSONWizard):
 ]
 
 
+# ---------------------------------------------------------------------------------------------------------------
+# generated scenario families (shapes drawn from the case RNG; `plans` = the schedule kinds explored for them)
+_WORDS = ['customer', 'order', 'total', 'retry', 'count', 'device', 'zone', 'label', 'price', 'width', 'owner', 'batch', 'level', 'score']
+_MEMBERS = ['Cat', 'Dog', 'Bird', 'Fish', 'Newt']
+
+
+def _fname(rng, used, parts=2):
+    while True:
+        n = '_'.join(rng.sample(_WORDS, parts))
+        if n not in used:
+            used.add(n)
+            return n
+
+
+def _spell(rng, name, avoid=()):
+    """a key spelling of field `name` that is not the field name itself"""
+    ws = name.split('_')
+    forms = [ws[0] + ''.join(w.title() for w in ws[1:]), ''.join(w.title() for w in ws), '-'.join(ws),
+             '-'.join(w.title() for w in ws), '_'.join(w.title() for w in ws), ws[0].upper() + '_' + '_'.join(ws[1:]), ' '.join(ws)]
+    forms = [f for f in forms if f not in avoid and f != name]
+    return rng.choice(forms)
+
+
+def gen_auto_tag_dump_vs_load(rng, k):
+    """first DUMP of a class whose Meta has auto_assign_tags (root with a Union of dataclasses) concurrent with the first
+    LOAD of the same class; schedules: two pre-emptions, each placed at an access of one of the shared per-class tables.
+    (Shapes kept out: a member class referenced outside the Union before it — findings/auto-tag-reference-before-union.py;
+    load settings bound after a first dump — findings/dump-first-auto-tags-stale-nested-loaders.py.)"""
+    members = rng.sample(_MEMBERS, rng.randint(2, 3))
+    used = set()
+    mf = _fname(rng, used)
+    uf = _fname(rng, used)
+    xf = _fname(rng, used)
+    style = ['own', 'base', 'bound'][k % 3]
+    src = PRELUDE
+    for m in members:
+        src += f'\n@dataclass\nclass {m}:\n    {mf}: str\n    other_num: int = 0\n'
+    union = 'Union[' + ', '.join(members + (['None'] if rng.random() < 0.4 else [])) + ']'
+    body = f'    {uf}: {union}\n    {xf}: int = 0\n'
+    if style == 'own':
+        src += f'\n@dataclass\nclass R(JSONWizard):\n    class _(JSONWizard.Meta):\n        auto_assign_tags = True\n{body}'
+    elif style == 'base':
+        src += ('\n@dataclass\nclass Base(JSONWizard):\n    class _(JSONWizard.Meta):\n        auto_assign_tags = True\n'
+                f'        tag_key = "kind"\n\n@dataclass\nclass R(Base):\n{body}')
+    else:
+        src += f'\n@dataclass\nclass R:\n{body}\nDumpMeta(auto_assign_tags=True).bind_to(R)\nLoadMeta(auto_assign_tags=True).bind_to(R)\n'
+    tag = 'kind' if style == 'base' else '__tag__'
+    a, b = members[0], members[1]
+    key_m = _spell(rng, mf)
+    dump = f'asdict(R({a}("v{k}"), 3))' if style == 'bound' or rng.random() < 0.5 else f'R({a}("v{k}"), 3).to_dict()'
+    doc = f'{{"{uf}": {{"{tag}": "{b}", "{key_m}": "w", "other_num": "4"}}, "{xf}": "5"}}'
+    load = f'fromdict(R, {doc})' if style == 'bound' or rng.random() < 0.5 else f'R.from_dict({doc})'
+    threads = [dump, load]
+    if rng.random() < 0.5:
+        threads.reverse()
+    post = [f'fromdict(R, {{"{uf}": {{"{tag}": "{a}", "{mf}": "p"}}}})', f'asdict(R({b}("q")))']
+    return dict(name=f'auto-tags-first-dump-vs-first-load-{style}', site=None, nfields=0, src=src, threads=threads, post=post,
+                plans=('tables', 'multi'), n_multi=20)
+
+
+HELPER_FILES = ['utils/string_conv.py', 'utils/type_conv.py', 'utils/object_path.py']
+
+
+def gen_unrelated_classes_new_keys(rng, k):
+    """two threads use two UNRELATED classes (no class of one is reachable from the other) whose documents present key
+    spellings never seen before, after a warm-up in which a third class met one of those spellings; the only state the
+    threads can share lives in the short pure helpers (key-case conversion, value conversion, path access).  Pre-emption at
+    every bytecode of the helper modules' frames; the outcome includes a later sequential use of both classes (a poisoned
+    memo / key cache shows afterwards).  Modes: both load; both make their first dump under a key transform; one of each."""
+    mode = ['load', 'dump', 'mixed'][k % 3]
+    used = set()
+    f1, f2, f3 = _fname(rng, used), _fname(rng, used), _fname(rng, used)
+    g1 = f2 if rng.random() < 0.6 else _fname(rng, used)     # the other class may or may not have a field of the same name
+    g2 = _fname(rng, used)
+    extras = rng.sample([('flag_x', 'bool', 'False', '"yes"'), ('when_x', 'Optional[datetime]', 'None', '"2021-02-03T04:05:06"'),
+                         ('span_x', 'timedelta', 'timedelta(0)', '"90"'), ('ratio_x', 'float', '0.0', '"2.5"'),
+                         ('day_x', 'Optional[date]', 'None', '"2020-01-02"')], 2)
+    tr = rng.choice(['CAMEL', 'PASCAL', 'LISP', 'SNAKE'])
+    meta = f'    class _(JSONWizard.Meta):\n        key_transform_with_dump = {tr!r}\n'
+    src = PRELUDE
+    src += f'\n@dataclass\nclass W(JSONWizard):\n{meta}    {f1}: int = 0\n'
+    src += f'\n@dataclass\nclass P(JSONWizard):\n{meta}    {f1}: int = 0\n    {f2}: int = 0\n    {f3}: str = "s"\n'
+    for n, t, d, _v in extras:
+        src += f'    {n}: {t} = {d}\n'
+    src += f'    deep_x: int = path_field("{g2}.b", default=0)\n'
+    src += f'\n@dataclass\nclass Q(JSONWizard):\n{meta}    {g1}: int = 0\n    {g2}: str = "t"\n'
+    k1 = _spell(rng, f1)
+    k2 = _spell(rng, f2)
+    k3 = _spell(rng, f3)
+    q1 = _spell(rng, g1, avoid=(k2,))
+    q2 = _spell(rng, g2)
+    ex = ', '.join(f'"{_spell(rng, n)}": {v}' for n, _t, _d, v in extras)
+
+    def p_doc(i):
+        return f'{{"{k1}": "{i}", "{k3}": "z{i}", {ex}, "{g2}": {{"b": "{i + 1}"}}}}'
+
+    def q_doc(i):
+        return f'{{"{q1}": "{i}", "{q2}": "y{i}"}}'
+    load_p, load_q = f'fromdict(P, {p_doc(5)})', f'Q.from_dict({q_doc(9)})'
+    dump_p, dump_q = 'P(1, 2, "a").to_dict()', 'asdict(Q(3, "b"))'
+    if mode == 'load':
+        pre, threads = [f'fromdict(W, {{"{k1}": 1}})'], [load_p, load_q]
+    elif mode == 'dump':
+        pre, threads = ['W(1).to_dict()'], [dump_p, dump_q]
+    else:
+        pre, threads = [f'fromdict(W, {{"{k1}": 1}})', 'W(1).to_dict()'], ([load_p, dump_q] if rng.random() < 0.5 else [dump_p, load_q])
+    if rng.random() < 0.5:
+        threads.reverse()
+    post = [f'fromdict(P, {p_doc(6)})', f'fromdict(Q, {q_doc(7)})', 'asdict(P(4, 5, "c"))', 'Q(6, "d").to_dict()',
+            f'fromdict(P, {{"{k2}": 8}})']
+    return dict(name=f'unrelated-classes-new-keys-{mode}', site=None, nfields=0, src=src, pre=pre, threads=threads, post=post,
+                opcode=True, opcode_files=HELPER_FILES, plans=('helper-opcode',))
+
+
 def _job(item):
     scn, plan, opcode, record = item
     return sched.run_case_in_child(scn, plan, opcode=opcode, record=record)
@@ -231,6 +346,50 @@ def switch_points(log, quick):
     return sorted(p for p in pts if 1 <= p < n)
 
 
+def table_plans(first_logs, nthr, rng, quick, cap):
+    """two pre-emptions placed at accesses of one shared per-class table X: thread a runs up to its m-th access of X, thread b
+    (on the state a left) up to its n-th access of X, then a runs to the end, then b.  The lines that access a table are read
+    off the source (sched.table_touch_lines).  X ranges over the tables both threads access and at least one of them writes;
+    m over a's accesses when it runs first, n over b's and one more (b's path on a's half-done state may be longer).
+    Quick tier: the first and last occurrence of every distinct accessing line, and for b also its first three accesses
+    (those of the root class the threads share)."""
+    touch = sched.table_touch_lines()
+    cnt, writes, pts = [], [], []
+    for log in first_logs:
+        c, w, first, last = {}, set(), {}, {}
+        for ev in log:
+            for x, wr in touch.get((ev[0], ev[1]), {}).items():
+                c[x] = c.get(x, 0) + 1
+                if wr:
+                    w.add(x)
+                first.setdefault((x, ev[0], ev[1]), c[x])
+                last[(x, ev[0], ev[1])] = c[x]
+        cnt.append(c)
+        writes.append(w)
+        pts.append({x: sorted({v for (y, _f, _l), v in list(first.items()) + list(last.items()) if y == x}) for x in c})
+    plans = []
+    for a in range(nthr):
+        for b in range(nthr):
+            if a == b:
+                continue
+            rest = [t for t in range(nthr) if t not in (a, b)]
+            for x in sorted(set(cnt[a]) & set(cnt[b])):
+                if x not in writes[a] and x not in writes[b]:
+                    continue
+                ms = pts[a][x] if quick else range(1, cnt[a][x] + 1)
+                ns = sorted(set(pts[b][x]) | {1, 2, 3, cnt[b][x] + 1}) if quick else range(1, cnt[b][x] + 3)
+                for m in ms:
+                    for n in ns:
+                        plans.append(('tables', [(a, ('tbl', x, m)), (b, ('tbl', x, n)), (a, sched.INF), (b, sched.INF)]
+                                      + [(t, sched.INF) for t in rest], False))
+    if len(plans) > cap:
+        plans = [plans[i] for i in sorted(rng.sample(range(len(plans)), cap))]
+    return plans
+
+
+FAMILIES = [(gen_auto_tag_dump_vs_load, 2, 9), (gen_unrelated_classes_new_keys, 3, 12)]
+
+
 def run(ctx: C.Ctx):
     rng = ctx.rng
     quick = ctx.tier == 'quick'
@@ -246,10 +405,18 @@ def run(ctx: C.Ctx):
     idx = 0
     model_reqs, model_meta = [], []
     impl_fail_by_site = {}
-    for s_no, scn in enumerate(SCENARIOS):
+    scenarios = list(SCENARIOS)
+    for fam_gen, n_quick, n_thorough in FAMILIES:
+        for k in range(ctx.quick(n_quick, n_thorough)):
+            scenarios.append(fam_gen(rng, k))
+    only_scn = os.environ.get('VERIF_C20_SCENARIOS')        # (development) comma-separated substrings of scenario names
+    if only_scn:
+        scenarios = [x for x in scenarios if any(w in x['name'] for w in only_scn.split(','))]
+    for s_no, scn in enumerate(scenarios):
         if ctx.deadline is not None and ctx.done(idx):
             break
         nthr = len(scn['threads'])
+        kinds = scn.get('plans') or (('single', 'multi', 'opcode') if scn.get('opcode') else ('single', 'multi'))
         # ---- sequential orders: the reference set, and the event logs
         seq = sched.fork_map(_job, [(scn, p, False, True) for p in seq_plans(nthr)])
         bad = [r for r in seq if r.get('harness_error') or r.get('stuck')]
@@ -264,12 +431,19 @@ def run(ctx: C.Ctx):
         plans = []
         # the log of thread t when it runs *first* (its first-use path): from the permutation that starts with t
         perms = list(itertools.permutations(range(nthr)))
+        first_logs = [seq[next(i for i, p in enumerate(perms) if p[0] == a)]['log'][a] for a in range(nthr)]
         for a in range(nthr):
-            first_log = seq[next(i for i, p in enumerate(perms) if p[0] == a)]['log'][a]
+            if 'single' not in kinds:
+                break
+            first_log = first_logs[a]
             others = [t for t in range(nthr) if t != a]
             for k in switch_points(first_log, quick):
                 plans.append(('single', [(a, k)] + [(t, sched.INF) for t in others] + [(a, sched.INF)], False))
-        n_double = ctx.quick(60, 600)
+        if 'tables' in kinds:
+            plans += table_plans(first_logs, nthr, rng, quick, ctx.quick(600, 20000))
+        n_double = ctx.quick(60, 600) if 'multi' in kinds else 0
+        if scn.get('n_multi') is not None and 'multi' in kinds:
+            n_double = ctx.quick(scn['n_multi'], 10 * scn['n_multi'])
         for _ in range(n_double):
             order = list(range(nthr))
             rng.shuffle(order)
@@ -278,7 +452,7 @@ def run(ctx: C.Ctx):
                 t = rng.choice(order)
                 plan.append((t, rng.randint(1, max(2, len(logs[t]) // 2 + 1))))
             plans.append(('multi', plan, False))
-        if scn.get('opcode'):
+        if scn.get('opcode') and 'opcode' in kinds:
             seq_op = sched.fork_map(_job, [(scn, seq_plans(nthr)[0], True, False)])[0]
             if not seq_op.get('harness_error') and not seq_op.get('stuck'):
                 for a in range(nthr):
@@ -287,6 +461,17 @@ def run(ctx: C.Ctx):
                     step = 1 if not quick else max(1, na // 120)
                     for k in range(1, na, step):
                         plans.append(('opcode', [(a, k)] + [(t, sched.INF) for t in others] + [(a, sched.INF)], True))
+        if 'helper-opcode' in kinds:
+            # every bytecode executed inside the helper modules' frames is a pre-emption point (and nothing else is)
+            seq_op = sched.fork_map(_job, [(scn, [(t, sched.INF) for t in p], True, False) for p in perms])
+            if not any(r.get('harness_error') or r.get('stuck') for r in seq_op):
+                ctx.notes.setdefault('helper_opcode_events', {})[scn['name']] = seq_op[0]['counts']
+                for a in range(nthr):
+                    na = seq_op[next(i for i, p in enumerate(perms) if p[0] == a)]['counts'][a]
+                    others = [t for t in range(nthr) if t != a]
+                    step = 1 if not quick else max(1, na // 400)
+                    for k in range(1, na + 1, step):
+                        plans.append(('helper-opcode', [(a, k)] + [(t, sched.INF) for t in others] + [(a, sched.INF)], True))
         todo = []
         for kind, plan, opcode in plans:
             i = idx
@@ -298,7 +483,8 @@ def run(ctx: C.Ctx):
         any_fail = False
         for (i, kind, plan, opcode), r in zip(todo, outs):
             ctx.current = i
-            case = {'scenario': scn['name'], 'kind': kind, 'plan': [[t, (k if k < sched.INF else 'end')] for t, k in plan], 'opcode': opcode}
+            case = {'scenario': scn['name'], 'kind': kind, 'opcode': opcode,
+                    'plan': [[t, (list(k) if isinstance(k, tuple) else k if k < sched.INF else 'end')] for t, k in plan]}
             if r.get('harness_error'):
                 ctx.notes.setdefault('harness_errors', []).append({'scenario': scn['name'], 'what': r['harness_error'][:600]})
                 ctx.count('harness_error')
